@@ -38,7 +38,7 @@ THOROUGH = ["cfg_t", "comp_t", "sys_t", "sys3_t", "full_t", "orders_t", "const_t
 # coverage (vacuity guard) is read on the smallest slice; it takes all four actions
 ACTIONS = {"full_q": ["OAdd", "OState", "OFeed", "GenBuild"], "full_t": ["OAdd", "OState", "OFeed", "GenBuild"]}
 
-FIELDS = ["names", "dep", "params", "paramseq", "poly", "f", "rvals", "f2", "f_again", "rvals2", "frame", "B"]
+FIELDS = ["names", "dep", "indep", "params", "paramseq", "poly", "f", "rvals", "f2", "f_again", "rvals2", "frame", "B"]
 
 
 def _want(exp, field):
